@@ -477,9 +477,12 @@ impl JitCompiler {
         self.emit_push(mem, map_register(7));
         self.emit_push(mem, map_register(8));
         self.emit_push(mem, map_register(9));
+        // Keep the stack 16-byte aligned in the callee
+        self.emit_alu64_imm32(mem, 0x81, 5, RSP, 8);
         // 0xe8 is the opcode for a CALL
         self.emit1(mem, 0xe8);
         self.emit_jump_offset(mem, target_pc);
+        self.emit_alu64_imm32(mem, 0x81, 0, RSP, 8);
         self.emit_pop(mem, map_register(9));
         self.emit_pop(mem, map_register(8));
         self.emit_pop(mem, map_register(7));
@@ -547,7 +550,7 @@ impl JitCompiler {
         self.emit_mov(mem, RSP, map_register(10));
 
         // Allocate stack space
-        self.emit_alu64_imm32(mem, 0x81, 5, RSP, ebpf::STACK_SIZE as i32);
+        self.emit_alu64_imm32(mem, 0x81, 5, RSP, ebpf::STACK_SIZE as i32 + 8);
 
         // Use a call to set up a place where we can land after eBPF program's
         // final EXIT call. This will make JIT of BPF EXIT call easier in the
@@ -998,7 +1001,7 @@ impl JitCompiler {
         }
 
         // Deallocate stack space
-        self.emit_alu64_imm32(mem, 0x81, 0, RSP, ebpf::STACK_SIZE as i32);
+        self.emit_alu64_imm32(mem, 0x81, 0, RSP, ebpf::STACK_SIZE as i32 + 8);
 
         self.emit_pop(mem, R15);
         self.emit_pop(mem, R14);
